@@ -46,6 +46,20 @@ func compareChain(sh chainShape, table map[byte]refmodel.Behaviour, st *fw.Stats
 		return []fw.Viol{{Sig: "register:panic", Msg: fmt.Sprintf("%s: registration panicked: %v", desc(), regPanic)}}
 	}
 	want := refmodel.RunChain(bs, abortCode)
+	if sh.N > 63 {
+		// beyond the documented limit (only global middleware can take a chain there) the cursor passes the abort
+		// sentinel without any abort, so IsAborted() carries no information (DESIGN L1): only enter / leave are compared
+		strip := func(es []refmodel.Event) []refmodel.Event {
+			var out []refmodel.Event
+			for _, e := range es {
+				if e.Kind != "probe" {
+					out = append(out, e)
+				}
+			}
+			return out
+		}
+		obs.events, want.Events = strip(obs.events), strip(want.Events)
+	}
 	if obs.pv != nil {
 		return []fw.Viol{{Sig: "serve:panic", Msg: fmt.Sprintf("%s: ServeHTTP panicked: %v; trace so far: %s", desc(), obs.pv, diffEvents(obs.events, want.Events))}}
 	}
